@@ -401,6 +401,7 @@ impl<R: RefCounter, PR: PathRefCounter, H: Header> Memory<R, PR, H> {
     unsafe {
       f(opts.to_mmap_options(), &file).and_then(|mut mmap| {
         let cap = mmap.len();
+        check_map_len(cap)?;
 
         let header_ptr_offset = check_capacity::<H>(reserved, true, cap).map_err(invalid_input)?;
 
@@ -583,6 +584,7 @@ impl<R: RefCounter, PR: PathRefCounter, H: Header> Memory<R, PR, H> {
     unsafe {
       f(mmap_opts, &file).and_then(|mmap| {
         let len = mmap.len();
+        check_map_len(len)?;
         let reserved = reserved as usize;
 
         let header_ptr_offset = check_capacity::<H>(reserved, true, len).map_err(invalid_input)?;
@@ -1139,6 +1141,18 @@ fn check_offset<H>(opts: &Options) -> std::io::Result<()> {
   if opts.offset % alignment != 0 {
     return Err(invalid_input(
       "the offset of the memory map must be a multiple of the maximum alignment",
+    ));
+  }
+  Ok(())
+}
+
+/// An ARENA addresses its memory with 32-bit offsets, a longer memory map cannot be its capacity.
+#[cfg(all(feature = "memmap", not(target_family = "wasm")))]
+#[inline]
+fn check_map_len(len: usize) -> std::io::Result<()> {
+  if len as u64 > u32::MAX as u64 {
+    return Err(invalid_input(
+      "the memory map is larger than the maximum capacity of an ARENA, open the file with a capacity",
     ));
   }
   Ok(())
